@@ -382,6 +382,7 @@ def run() -> int:
         "y0.algorithm.counterfactual_transport.ancestor_utils.minimize_counterfactual, get_ancestors_of_counterfactual, get_ancestral_components (run natively)",
         "y0.algorithm.counterfactual_transport.api.simplify (Algorithm 1) and helpers, minimize_event, do_counterfactual_factor_factorization, convert_to_counterfactual_factor_form, get_counterfactual_factors (run natively)",
         "Boolean L3: unit-level structural functions as symbolic truth tables (vf/sem/bool3.py); SymL3 response-type models for the factorisation (vf/sem/l3.py)",
+        "RSI: get_ancestors_of_counterfactual, minimize_counterfactual (ancestor_utils.py) and the NxMixedGraph operations they call, translated from the current AST over a symbolic ADMG (vf/checks/c19_rsi.py)",
     ]
     rep.bounds = {
         "graphs": "ADMGs <=3 nodes exhaustive (quick: one labelling), a slice of the 4-node classes (quick 1/16, thorough 1/2), curated fig. 9 / front-door / napkin / Verma",
@@ -389,12 +390,13 @@ def run() -> int:
         "minimize": "every (Y, subscript set) with <=2-3 subscripted variables, all polarities, reflexive subscripts included",
         "simplify": "events of <=3 atoms, subscripts <=1, repeated variables with equal or conflicting values included (3-atom events: a stride)",
         "factorize": "queries of <=2 atoms, subscripts <=1, without reflexive atoms (the factorisation is applied to outputs of SIMPLIFY)",
+        "rsi": "Def. 2.1 ancestor sets and the minimised subscript set for Y = V0 with <=3 subscripted variables (reflexive subscripts and mixed polarities included; other choices are renamings): every ADMG on N nodes, N = 4 (quick), 4-5 (thorough)",
         "PYTHONHASHSEED": hashseed(),
     }
     rep.assumptions = [
         "'same random variable in every model' = equal value for every tuple of unit-level response functions (binary variables); 'same probability in every model' for two events over the same units = the same set of units (both decided by SAT)",
         "factorisation: the returned expression is read with the returned event's values for unmarked variables and literal subscripts unless Sum-bound (DESIGN §2); the alternative reading in which a '-V' subscript takes the event's value of V is evaluated as well and used only to attribute a violation to the known '+ value printed as -' finding",
-        "ancestor sets are compared with a transcription of Definition 2.1 and ancestral components with a transcription of Definition 4.2 (assertions on each output, NOT solver-decided: the code builds sets of frozensets of computed counterfactual variables, which the relational interpreter does not represent); 'not disjoint' in Def. 4.2 is read at the level of graph vertices, as the implementation documents",
+        "Definition 2.1 ancestor sets and the syntactic result of minimisation are decided by z3 over symbolic graphs (RSI part; Variable.intervene(S) / CounterfactualVariable(interventions=S) on a guarded set S become one guarded alternative per subset); in addition ancestor sets are compared with a transcription of Definition 2.1 and ancestral components with a transcription of Definition 4.2 on the enumerated graphs (assertions on each output; the components are NOT solver-decided: the code builds sets of frozensets of computed counterfactual variables, which the relational interpreter does not represent); 'not disjoint' in Def. 4.2 is read at the level of graph vertices, as the implementation documents",
     ]
     rep.rule = "cases = one call of minimize_counterfactual / get_ancestors_of_counterfactual / simplify / do_counterfactual_factor_factorization; non-trivial = the function changed its input (dropped a subscript, removed or merged atoms) or produced a sum-product that the solver compared"
     for job, st, res in pmap(work, jobs_for(t)):
@@ -451,6 +453,39 @@ def run() -> int:
                     f"a unit exists on which input is {r['v_in']} and output is {r['v_out']}" if r["kind"] != "factorize" else f"expression value {r['v_out']} != P(query) = {r['v_in']}"
                 )
                 rep.add_violation(Violation(PROP, keys, what, dict(base, kind="wrong", out_seen=r.get("out"), unit=r.get("unit"), params=r.get("params"), v_in=r.get("v_in"), v_out=r.get("v_out"))))
+    # Definition 2.1 and subscript minimisation over symbolic graphs (RSI): solver-decided for all ADMGs on N nodes
+    from .c19_rsi import rsi_jobs, rsi_work
+
+    for job, st, r in pmap(rsi_work, rsi_jobs(t)):
+        if st != "ok":
+            rep.harness_errors.append(short(r, 600))
+            continue
+        rep.cases += 1
+        key = f"rsi:{r['kind']} N={r['N']} {r.get('query')}"
+        rep.count("rsi:" + r.get("status", r.get("verdict", "?")))
+        if r.get("status") == "unsupported":
+            # the transcription comparison above still covers these functions on the enumerated graphs
+            rep.inconclusive += 1
+            rep.inconclusive_samples.append(f"{key}: encoding cannot be built on this tree: {r['why']}")
+            continue
+        rep.obligations += 1
+        rep.solver_s += r["solve_s"]
+        if r["twin"] == "sat":
+            rep.nontrivial.add(key)
+        if r["verdict"] == "unsat":
+            rep.discharged += 1
+        elif r["verdict"] == "unknown":
+            rep.inconclusive += 1
+            rep.inconclusive_samples.append(key)
+        else:
+            rep.refuted += 1
+            cex = r["cex"]
+            if not cex["bad"]:
+                rep.harness_errors.append(f"{key}: solver counterexample did not reproduce natively: {cex}")
+                continue
+            g = GSpec.from_json(cex["g"])
+            call = "ancestors" if r["kind"] == "ancestors" else "minimize-syntactic"
+            rep.add_violation(Violation(PROP, [f"{call} {g.key()} {cex['v']}{cex['s']}"], f"{call} {g.key()} {r.get('query')} returned {short(cex.get('out'), 160)}, the definition gives {short(cex.get('want'), 160)} (solver counterexample over all {r['N']}-node graphs, replayed)", {"property": PROP, "graph": cex["g"], "call": call, "q": [cex["v"], cex["s"]], "hashseed": hashseed(), "kind": "differs"}))
     if not rep.samples:
         rep.add_sample({"note": "no sample drawn"})
     return rep.finish()
@@ -463,6 +498,17 @@ def replay(payload: dict) -> int:
     if call == "components":
         conv = lambda xs: tuple((v, tuple(tuple(p) for p in s_)) for v, s_ in xs)
         r = check_components(g, conv(q[0]), conv(q[1]))
+    elif call == "minimize-syntactic":
+        from y0.algorithm.counterfactual_transport.ancestor_utils import minimize_counterfactual
+        from y0.dsl import CounterfactualVariable
+
+        v, s = q[0], tuple(tuple(p) for p in q[1])
+        try:
+            o = minimize_counterfactual(y0_var(v, s), g.to_nx())
+            got = (o.name, tuple(sorted((i.name, 1 if i.star else 0) for i in o.interventions)) if isinstance(o, CounterfactualVariable) else ())
+            r = {"status": "ok" if got == def_minimize(g, v, s) else "differs", "out": str(got), "want": str(def_minimize(g, v, s))}
+        except Exception as e:  # noqa: BLE001
+            r = {"status": "crash", "exc": f"{type(e).__name__}: {e}"}
     elif call in ("minimize", "ancestors"):
         v, s = q[0], tuple(tuple(p) for p in q[1])
         r = check_minimize(g, b, v, s) if call == "minimize" else check_ancestors(g, v, s)
